@@ -88,6 +88,13 @@ static void gen_history(Rng &r, Plan &p, int mode, bool c04) {
   for (auto &inj : later) { nap(); p.ops.push(inj); }
   // disturbances
   if (mode == 1) {  // clean stop and restart
+    // ... sometimes after a configuration reread (HUP) that failed half-way while deliveries were in flight: the daemon keeps its old
+    // configuration and must otherwise be exactly where it was (same directory, same files) when the reports come in
+    if (r.chance(0.5)) { Fault f; f.actor = "qmail-send#1"; f.call = r.pick(std::vector<CallId>{C_OPEN, C_READ}); f.path = r.chance(0.5) ? "/control/locals" : "/control/virtualdomains"; f.nth = 2; f.kind = "error"; f.err = r.pick(std::vector<int>{ENFILE, EIO, ENOMEM, EACCES}); p.faults.push_back(f);
+      for (auto &op : p.ops.a) if (op.gets("op") == "script" && r.chance(0.6)) { Json &at = op.at("attempts"); if (!at.a.empty()) at.a[0].set("lat", (long long)r.range(20, 200)); }   // slow first attempts: in flight across the HUP
+      // the HUP comes shortly after the first injection, while its deliveries are out
+      { Json ops2 = Json::arr(); bool placed = false; size_t last_inj = 0, idx = 0; for (auto &op : p.ops.a) { if (op.gets("op") == "inject") last_inj = idx; idx++; } bool after_last = r.chance(0.6); idx = 0;   // (after the last one: from then on only reports arrive, nothing makes the daemon look at a directory)
+        for (auto &op : p.ops.a) { ops2.push(op); bool here = op.gets("op") == "inject" && (!after_last || idx == last_inj); idx++; if (!placed && here) { ops2.push(Json::obj().set("op", "yield").set("n", (long long)r.range(20, 500))); ops2.push(Json::obj().set("op", "signal").set("to", "qmail-send").set("sig", "HUP")); placed = true; } } p.ops = ops2; if (!placed) { p.ops.push(Json::obj().set("op", "yield").set("n", (long long)r.range(50, 600))); sig("HUP"); } } }
     nap(); p.ops.push(Json::obj().set("op", "shutdown").set("max_s", 200000)); p.ops.push(Json::obj().set("op", "boot"));
   } else if (mode == 2) {  // process crash of a daemon before one of its calls
     Fault f; f.actor = r.chance(0.8) ? "qmail-send" : "qmail-clean"; f.call = r.chance(0.5) ? C_ANY : r.pick(std::vector<CallId>{C_UNLINK, C_WRITE, C_OPEN, C_FSYNC}); f.nth = (int)r.range(1, f.call == C_ANY ? 400 : 25); f.kind = "kill";
@@ -116,7 +123,9 @@ static void gen_history(Rng &r, Plan &p, int mode, bool c04) {
   } else if (mode == 9) {  // one failing call of the daemon on a named kind of queue file, early in that file's use (rare paths: pqadd, getinfo, markdone, addbounce, injectbounce, job_close)
     Fault f; f.actor = "qmail-send"; f.path = r.pick(std::vector<std::string>{"/bounce/", "/info/", "/local/", "/remote/", "/mess/", "/todo/"});
     f.call = r.pick(std::vector<CallId>{C_STAT, C_OPEN, C_READ, C_WRITE, C_FSYNC, C_UNLINK, C_UTIMES});
-    f.nth = (int)r.range(1, 4); f.kind = "error"; f.err = r.pick(std::vector<int>{EIO, ENOMEM, ENFILE, EACCES, EINTR, EINTR});   // (EINTR: the daemon's handlers are installed without SA_RESTART; an interrupted fsync or write has not happened)
+    bool twice = r.chance(0.25);   // the daemon's look at a channel file fails twice in a row: when a job closes it asks whether the other channel still has work, and asks again, more carefully, before it declares the message done
+    if (twice) { f.call = C_STAT; f.path = r.chance(0.5) ? "/remote/" : "/local/"; }
+    f.nth = (int)r.range(1, 4); if (twice) f.nth = (int)r.range(1, 8); f.kind = "error"; f.err = r.pick(std::vector<int>{EIO, ENOMEM, ENFILE, EACCES, EINTR, EINTR});   // (EINTR: the daemon's handlers are installed without SA_RESTART; an interrupted fsync or write has not happened)
     if (r.chance(0.5)) {   // the startup scan (pqstart/pqadd) only sees messages that exist at boot: stop, restart, and fault the second daemon
       nap(); p.ops.push(Json::obj().set("op", "shutdown").set("max_s", 200000)); p.ops.push(Json::obj().set("op", "boot"));
       f.actor = "qmail-send#2"; if (r.chance(0.7)) { f.call = C_STAT; f.path = r.pick(std::vector<std::string>{"/info/", "/local/", "/remote/", "/remote/", "/todo/"}); }
@@ -124,8 +133,22 @@ static void gen_history(Rng &r, Plan &p, int mode, bool c04) {
       // keep recipients unfinished across the restart: a first attempt that is deferred
       for (auto &op : p.ops.a) if (op.gets("op") == "script" && r.chance(0.7)) { Json &at = op.at("attempts"); Json z = Json::obj(); z.set("v", "Z").set("text", "deferred").set("lat", (long long)r.below(5)); at.a.insert(at.a.begin(), z); }
     }
+    if (twice && r.chance(0.5)) {
+      // the plain case, first in the run: one message for both channels, one side finishes at once while the other is deferred, and both
+      // looks at the deferred side's file fail
+      bool lfirst = r.chance(0.5); std::string fin = lfirst ? "qa@l.example" : "qa@r.example", def = lfirst ? "qb@r.example" : "qb@l.example";
+      Json s1 = Json::obj(); s1.set("op", "script").set("rcpt", fin); Json a1 = Json::arr(); a1.push(Json::obj().set("v", r.chance(0.7) ? "K" : "D").set("text", "done").set("lat", 0)); s1.set("attempts", a1);
+      Json s2 = Json::obj(); s2.set("op", "script").set("rcpt", def); Json a2 = Json::arr(); a2.push(Json::obj().set("v", "Z").set("text", "later").set("lat", (long long)r.range(3, 30))); a2.push(Json::obj().set("v", "K").set("text", "ok").set("lat", 0)); s2.set("attempts", a2);
+      Json inj = Json::obj(); Json rc = Json::arr(); rc.push(fin); rc.push(def); inj.set("op", "inject").set("id", "m0").set("sender", "s0@x.example").set("rcpts", rc).set("body_len", 20).set("body_seed", 7);
+      Json ops2 = Json::arr(); bool placed = false; for (auto &op : p.ops.a) { ops2.push(op); if (!placed && op.gets("op") == "boot") { ops2.push(s1); ops2.push(s2); ops2.push(inj); ops2.push(Json::obj().set("op", "settle").set("max_s", 2)); placed = true; } } p.ops = ops2;
+      f.actor = "qmail-send#1"; f.call = C_STAT; f.path = lfirst ? "/remote/" : "/local/"; f.nth = 1;
+    }
     p.faults.push_back(f);
-    if (r.chance(0.3)) { Fault g = f; g.nth += (int)r.range(1, 3); p.faults.push_back(g); }
+    if (twice) { Fault g = f; p.faults.push_back(g); }   // (a fault counts the calls it is asked about; the call on which an earlier fault fires is not among them: same number = the very next call)
+    else if (r.chance(0.3)) { Fault g = f; g.nth += (int)r.range(1, 3); p.faults.push_back(g); }
+    // the same call failing twice in a row on the same kind of file (a file server that stays away for a moment): the first failure is
+    // usually survived by a second look - which then fails too
+    else if (r.chance(0.4)) { Fault g = f; p.faults.push_back(g); if (r.chance(0.5)) { Fault h = f; p.faults.push_back(h); } }
   }
   int64_t horizon = lifetime + 400000;
   p.ops.push(Json::obj().set("op", "settle").set("max_s", (long long)horizon));
@@ -628,7 +651,7 @@ static bool gen_c14(uint64_t seed, const std::string &tier, uint64_t i, Plan &p)
   if (i % 5 == 4) { Fault f; f.actor = "qmail-queue"; f.call = r.pick(std::vector<CallId>{C_WRITE, C_FSYNC, C_LINK, C_OPEN, C_READ}); f.nth = (int)r.range(3, 25); f.kind = "error"; f.err = EIO; p.faults.push_back(f); }
   // a write on the bounce record takes only a few bytes and the next one fails outright (disk full), later ones work: the record must
   // come out exactly once, neither cut nor doubled
-  if (i % 5 == 0 && p.faults.empty() && r.chance(0.5)) { Fault a; a.actor = "qmail-send#"; a.call = C_WRITE; a.path = "/bounce/"; a.nth = (int)r.range(1, 3); a.kind = "short"; a.arg = r.pick(std::vector<int64_t>{1, 5, 10, 17, 40}); Fault b = a; b.nth = a.nth + 1; b.kind = "error"; b.err = r.pick(std::vector<int>{ENOSPC, EIO, EDQUOT}); p.faults.push_back(a); p.faults.push_back(b); }
+  if (i % 5 == 0 && p.faults.empty() && r.chance(0.5)) { Fault a; a.actor = "qmail-send#"; a.call = C_WRITE; a.path = "/bounce/"; a.nth = (int)r.range(1, 3); a.kind = "short"; a.arg = r.pick(std::vector<int64_t>{1, 5, 10, 17, 40}); Fault b = a; b.kind = "error"; b.err = r.pick(std::vector<int>{ENOSPC, EIO, EDQUOT}); p.faults.push_back(a); p.faults.push_back(b); }
   // ... or the daemon cannot even start the queue program for the bounce (no process slot, no descriptors): it says so and tries again later
   if (i % 5 == 0 && p.faults.empty() && r.chance(0.5)) { Fault f; f.actor = "qmail-send#"; f.call = r.pick(std::vector<CallId>{C_FORK, C_PIPE}); f.nth = (int)r.range(1, 3); f.kind = "error"; f.err = r.pick(std::vector<int>{EAGAIN, ENOMEM, EMFILE, ENFILE}); p.faults.push_back(f); }
   // a signal interrupts the daemon while it waits for the queue child that takes the bounce (wait returns EINTR once)
